@@ -49,7 +49,7 @@ func (c *Contract) clauses(kind string) []*Clause {
 }
 
 var reFuncDirective = regexp.MustCompile(`^func\s+(.+)$`)
-var reLoop = regexp.MustCompile(`^loop\s+(\d+)\s*:\s*(invariant|rangeinv|decreases)\s*(?:\[([A-Za-z0-9_\-]+)\])?\s+(.*)$`)
+var reLoop = regexp.MustCompile(`^loop\s+(\d+)\s*:\s*(invariant|rangeinv|decreases|with)\s*(?:\[([A-Za-z0-9_\-]+)\])?\s+(.*)$`)
 var reAssert = regexp.MustCompile(`^assert\s+([A-Za-z0-9_\-]+)\s+before\s+"((?:[^"\\]|\\.)*)"\s*:\s*(.*)$`)
 var reClause = regexp.MustCompile(`^(requires|ensures|decreases)\s*(?:\[([A-Za-z0-9_\-]+)\])?\s+(.*)$`)
 
@@ -117,7 +117,7 @@ func parseContractFile(path string) ([]*Contract, error) {
 		}
 		fields := strings.Fields(body)
 		switch fields[0] {
-		case "inline", "pure", "trusted", "noinline", "lemma", "spec":
+		case "inline", "pure", "trusted", "noinline", "lemma", "spec", "functional":
 			for _, f := range fields {
 				cur.Flags[f] = true
 			}
@@ -619,9 +619,30 @@ func (w *weaver) weave(c *Contract) {
 	}
 	loops := loopsOf(sf, fd)
 	n := 0
+	loopParams := map[int]string{}
+	for _, cl := range c.Clauses {
+		if cl.Kind == "with" {
+			loopParams[cl.Loop] = cl.Expr
+		}
+	}
+	oldUsed := map[string]bool{}
 	for _, cl := range c.Clauses {
 		expr := rewriteImp(cl.Expr)
+		if cl.Kind == "invariant" || cl.Kind == "rangeinv" || cl.Kind == "loopdec" || cl.Kind == "assert" {
+			if strings.Contains(expr, "old(") {
+				for p := range ptrParams {
+					oldUsed[p] = true
+				}
+				e2, err := rewriteOld(expr, ptrParams)
+				if err != nil {
+					w.fail("%s: %v in %q", cl.Line, err, expr)
+					continue
+				}
+				expr = e2
+			}
+		}
 		switch cl.Kind {
+		case "with":
 		case "requires", "ensures", "decreases":
 			if cl.Kind == "ensures" {
 				e2, err := rewriteOld(expr, ptrParams)
@@ -657,11 +678,15 @@ func (w *weaver) weave(c *Contract) {
 			var text string
 			switch cl.Kind {
 			case "invariant":
-				text = fmt.Sprintf("verifspec.Invariant(func() bool { return %s }); ", expr)
+				text = fmt.Sprintf("verifspec.Invariant(func(%s) bool { return %s }); ", loopParams[cl.Loop], expr)
 			case "rangeinv":
-				text = fmt.Sprintf("verifspec.RangeInvariant(func(idx int) bool { return %s }); ", expr)
+				ps := "idx int"
+				if loopParams[cl.Loop] != "" {
+					ps += ", " + loopParams[cl.Loop]
+				}
+				text = fmt.Sprintf("verifspec.Invariant(func(%s) bool { return %s }); ", ps, expr)
 			case "loopdec":
-				text = fmt.Sprintf("verifspec.Decreases(func() int { return %s }); ", expr)
+				text = fmt.Sprintf("verifspec.Decreases(func(%s) int { return %s }); ", loopParams[cl.Loop], expr)
 			}
 			sf.splices = append(sf.splices, splice{loops[cl.Loop], text})
 			sf.needImport = true
@@ -690,6 +715,19 @@ func (w *weaver) weave(c *Contract) {
 			sf.splices = append(sf.splices, splice{off, text})
 			sf.needImport = true
 		}
+	}
+	if len(oldUsed) > 0 {
+		// ghost snapshots of the pointees at function entry (shallow copies)
+		var names []string
+		for p := range oldUsed {
+			names = append(names, p)
+		}
+		sort.Strings(names)
+		text := ""
+		for _, p := range names {
+			text += fmt.Sprintf(" %s__oldv := *%s; %s__old := &%s__oldv; _ = %s__old;", p, p, p, p, p)
+		}
+		sf.splices = append(sf.splices, splice{sf.fset.Position(fd.Body.Lbrace).Offset + 1, text})
 	}
 }
 
